@@ -79,11 +79,17 @@ fn pool_obs(s: &Snap) -> Vec<String> {
 }
 fn sdiff(a: u128, bb: u128) -> String { if a >= bb { (a - bb).to_string() } else { format!("-{}", bb - a) } }
 
+/// who receives the proceeds of a swap: for offers with x % 5 == 2 another user than the sender (`to` argument), else the sender.
+/// The model's swap does not depend on the receiver; the user effect observed is the sum over sender and receiver.
+pub fn receiver(op: &Op) -> Option<usize> {
+    match op { Op::Swap { u, x, .. } => Some(if *x % 5 == 2 { (*u + 1) % 4 } else { *u }), _ => None }
+}
 pub fn exec(w: &mut TrioWorld, op: &Op) -> Result<(), String> {
     match op {
         Op::Provide { u, d } => w.provide(USERS4[*u], *d, None).map(|_| ()),
         Op::Withdraw { u, amount } => w.withdraw(USERS4[*u], *amount).map(|_| ()),
-        Op::Swap { u, i, j, x, ms } => w.swap(USERS4[*u], *i, *j, *x, None, ms.map(|m| Decimal::new(m.into()))).map(|_| ()),
+        Op::Swap { u, i, j, x, ms } => { let rc = receiver(op).unwrap();
+            w.swap_to(USERS4[*u], *i, *j, *x, None, ms.map(|m| Decimal::new(m.into())), if rc != *u { Some(USERS4[rc].to_string()) } else { None }).map(|_| ()) }
         Op::Collect => w.collect("bob").map(|_| ()),
         Op::Ramp { owner, fa, fb } => w.ramp(if *owner { OWNER } else { "carol" }, *fa, *fb).map(|_| ()),
         Op::Donate { i, x } => w.donate("donor", *i, *x).map(|_| ()),
@@ -150,6 +156,7 @@ fn monitors(cx: &mut Ctx, op: &Op, ok: bool, before: &Snap, after: &Snap) {
     }
     match op {
         Op::Swap { u, i, j, x, .. } => {
+            let u = &receiver(op).unwrap_or(*u);
             let unsw = 3 - i - j;
             let t: Ramp5 = (before.cfg[0], before.cfg[1], before.height, before.cfg[2], before.cfg[3]);
             // curve output recomputed through the hook on the reserves the contract saw
@@ -301,9 +308,10 @@ pub fn run_history(out: &mut Out, rng: &mut Rng, h: &History) {
                 }
             }
         }
-        if let (Some(q), Ok(_), Op::Swap { u, j, .. }) = (&quote, &r, &op) {
+        if let (Some(q), Ok(_), Op::Swap { j, .. }) = (&quote, &r, &op) {
             out.monitor_evals += 1;
-            let got = after.user[*u][*j] - before.user[*u][*j];
+            let rc = receiver(&op).unwrap();
+            let got = after.user[rc][*j] - before.user[rc][*j];
             match q {
                 Ok(sim) => {
                     if sim.return_amount.u128() != got || sim.protocol_fee_amount.u128() != after.fee[*j] - before.fee[*j] || sim.burn_fee_amount.u128() != after.burn[*j] - before.burn[*j] {
@@ -319,7 +327,8 @@ pub fn run_history(out: &mut Out, rng: &mut Rng, h: &History) {
         monitors(&mut cx, &op, r.is_ok(), &before, &after);
         // there and straight back: a successful swap i->j followed by the same user's swap j->i of exactly the proceeds
         if let (Ok(_), Op::Swap { u, i, j, x, .. }) = (&r, &op) {
-            let got = after.user[*u][*j] - before.user[*u][*j];
+            let rc = receiver(&op).unwrap();
+            let got = after.user[rc][*j] - before.user[rc][*j];
             if let Some((lu, li, lj, lx, lgot, start_bal, start)) = last_swap.take() {
                 if lu == *u && li == *j && lj == *i && lgot == *x {
                     out.monitor_evals += 1;
@@ -345,7 +354,10 @@ pub fn run_history(out: &mut Out, rng: &mut Rng, h: &History) {
                 kinds_seen.insert(op.kind());
                 obsv.push("0".into());
                 let u = match &op { Op::Provide { u, .. } | Op::Withdraw { u, .. } | Op::Swap { u, .. } => Some(*u), _ => None };
-                for i in 0..3 { obsv.push(match u { Some(u) => sdiff(after.user[u][i], before.user[u][i]), None => "0".into() }); }
+                let rc = receiver(&op).filter(|rc| Some(*rc) != u);
+                for i in 0..3 { obsv.push(match u { Some(u) => match rc {
+                    Some(rc) => sdiff(after.user[u][i].saturating_add(after.user[rc][i]), before.user[u][i].saturating_add(before.user[rc][i])),
+                    None => sdiff(after.user[u][i], before.user[u][i]) }, None => "0".into() }); }
                 for i in 0..3 { obsv.push(sdiff(after.coll[i], before.coll[i])); }
             }
             Err(e) => match fail_class(e) { Some(c) => { obsv.push("1".into()); obsv.push(c.to_string()); } None => obsv.push("2".into()) },
@@ -379,6 +391,21 @@ pub fn pool_histories(out: &mut Out, rng: &mut Rng, n: u64) {
             Op::Swap { u: 1, i: 2, j: 0, x: 9_000_000, ms: None },
             Op::Withdraw { u: 0, amount: 1_000_000_000 },
             Op::Collect,
+        ]) },
+        // a ramp that has COMPLETED: swaps (and their quotes) at and after the ramp's last block use the target amplification
+        History { amp: 85, fees: (DEC / 1000, 3 * DEC / 1000, DEC / 1000), kinds: [false, true, false], len: 0, fixed: Some(vec![
+            Op::Provide { u: 0, d: [1_000_000_000, 1_200_000_000, 900_000_000] },
+            Op::Ramp { owner: true, fa: 400, fb: 30_000 },
+            Op::Advance { dh: 15_000 },
+            Op::Swap { u: 1, i: 0, j: 1, x: 50_000_000, ms: Some(DEC / 2) },     // during the ramp
+            Op::Advance { dh: 20_000 },
+            Op::Swap { u: 1, i: 1, j: 2, x: 236_000_000, ms: Some(DEC / 2) },    // after its end
+            Op::Swap { u: 2, i: 2, j: 0, x: 77_000_003, ms: Some(DEC / 2) },
+            Op::Provide { u: 1, d: [10_000_000, 10_000_000, 10_000_000] },
+            Op::Ramp { owner: true, fa: 60, fb: 90_000 },
+            Op::Advance { dh: 70_000 },
+            Op::Swap { u: 2, i: 0, j: 2, x: 150_000_000, ms: Some(DEC / 2) },
+            Op::Withdraw { u: 0, amount: 300_000_000 },
         ]) },
         // a collection while one asset's pending fee is above the 1000-unit minimum and another's is between 1 and 1000
         History { amp: 100, fees: (DEC / 1000, 3 * DEC / 1000, 0), kinds: [false, false, true], len: 0, fixed: Some(vec![
